@@ -29,7 +29,7 @@ META = {
                    'y_true / y_pred: state restored and value = the closed-form single-pair value; (c) all 41 accepted metric '
                    'classes are pushed through the abstract model\'s assumptions concretely (translator validation, not a verdict).',
     'bounds': {'quick': {'calls_in_sequence': 3, 'dict_labels': '<= 3', 'sharing_wrappers': 2},
-               'thorough': {'calls_in_sequence': 5, 'dict_labels': '<= 3', 'sharing_wrappers': 3}},
+               'thorough': {'calls_in_sequence': 8, 'dict_labels': '<= 3', 'sharing_wrappers': 3}},
     'outside': ['confusion-matrix / entropy / AUC based metrics at the level of their own arithmetic (covered by the abstract model '
                 'only; the law revert o update = id is river\'s contract and is validated concretely in (c))',
                 'metrics that were already updated by the user before being handed to iXAI (river\'s RMSLE.revert is not the inverse '
@@ -41,7 +41,7 @@ META = {
 
 def configs(tier):
     cfgs = []
-    T = 3 if tier == 'quick' else 5
+    T = 3 if tier == 'quick' else 8
     for dict_input in (False, True):
         for bigger in (False, True):
             cfgs.append(dict(group='abstract', dict_input=dict_input, bigger=bigger, T=T))
